@@ -170,3 +170,91 @@ func TestVFC16History(t *testing.T) {
 		}
 	})
 }
+
+// TestVFC16Volume: the attribution of a request does not depend on how many
+// requests, of which kind, the server has answered before.  In-process (the
+// protocol doubles of TestVFC16Extract), so that thousands of earlier requests
+// are cheap: ordinary questions, the questions the server answers by itself
+// without looking at the client (Firefox canary, health check, AAAA when AAAA
+// is switched off), with and without ClientIDs.
+func TestVFC16Volume(t *testing.T) {
+	vfkit.Begin(t)
+	rapid.Check(t, func(t *rapid.T) {
+		var attributed []string
+		aaaaOff := rapid.Bool().Draw(t, "aaaa_disabled")
+		w, err := vfNewWorld(&vfWorldConf{
+			ProtectionEnabled: true, FilteringEnabled: true, ServerName: vfC16HistServerName, AAAADisabled: aaaaOff,
+			OnApplyClient: func(id string, _ netip.Addr) { attributed = append(attributed, id) },
+		})
+		if err != nil {
+			t.Fatalf("VERIF-INCONCLUSIVE world: %v", err)
+		}
+		defer w.close()
+
+		protos := []proxy.Proto{proxy.ProtoTLS, proxy.ProtoQUIC, proxy.ProtoHTTPS, proxy.ProtoUDP, proxy.ProtoTCP}
+		ids := []string{"alice", "bob", ""}
+		var trace []string
+		total := 0
+		probe := func(label string) {
+			p := rapid.SampledFrom(protos).Draw(t, label+"_proto")
+			id := rapid.SampledFrom(ids).Draw(t, label+"_id")
+			q := vfQuery{Name: "probe.example.", Qtype: dns.TypeA, Addr: netip.MustParseAddrPort("198.18.0.5:4000"), Proto: p, ClientID: id}
+			want := id
+			if p == proxy.ProtoUDP || p == proxy.ProtoTCP {
+				want = ""
+			}
+			attributed = nil
+			o := w.run(q)
+			if o.BeforeErr != nil || o.Err != nil || o.Res == nil {
+				t.Fatalf("probe over %s with ClientID %q failed: before=%v err=%v\nearlier: %v", p, id, o.BeforeErr, o.Err, trace)
+			}
+			vfC16.Eval()
+			vfC16.Class("volume:probe")
+			if total >= 1024 {
+				vfC16.Class("volume:probe_after_1024_requests")
+			}
+			vfC16.Nontrivial(fmt.Sprintf("volume|%s|%q|%d|%v", p, id, total, trace))
+			if len(attributed) != 1 || attributed[0] != want {
+				t.Fatalf("request over %s carrying ClientID %q was attributed to %q after %d earlier requests\nearlier: %v",
+					p, want, attributed, total, trace)
+			}
+			if vfC16.WantSample("volume") {
+				vfC16.Sample("volume", map[string]any{"earlier": append([]string(nil), trace...), "proto": p, "carries": want, "attributed_to": attributed[0]})
+			}
+		}
+
+		probe("first")
+		nBulk := rapid.IntRange(1, 3).Draw(t, "n_bulks")
+		for b := 0; b < nBulk; b++ {
+			label := fmt.Sprintf("bulk%d", b)
+			kind := rapid.SampledFrom([]string{"ordinary", "canary", "healthcheck", "aaaa"}).Draw(t, label+"_kind")
+			count := rapid.SampledFrom([]int{3, 40, 1100, 2300}).Draw(t, label+"_count")
+			withID := rapid.IntRange(0, 3).Draw(t, label+"_with_id") > 0
+			p := rapid.SampledFrom(protos[:3]).Draw(t, label+"_proto")
+			q := vfQuery{Name: "bulk.example.", Qtype: dns.TypeA, Addr: netip.MustParseAddrPort("198.18.0.6:4000"), Proto: p}
+			switch kind {
+			case "canary":
+				q.Name = "use-application-dns.net."
+			case "healthcheck":
+				q.Name = "healthcheck.adguardhome.test."
+			case "aaaa":
+				q.Qtype = dns.TypeAAAA
+			}
+			for i := 0; i < count; i++ {
+				if withID {
+					q.ClientID = fmt.Sprintf("dev%d", i%7)
+				}
+				o := w.run(q)
+				if o.BeforeErr != nil || o.Err != nil {
+					t.Fatalf("bulk request %d (%s over %s) failed: before=%v err=%v", i, kind, p, o.BeforeErr, o.Err)
+				}
+			}
+			total += count
+			trace = append(trace, fmt.Sprintf("%d x %s over %s (ClientIDs: %t, aaaa_disabled: %t)", count, kind, p, withID, aaaaOff))
+			vfC16.Class("volume:bulk:" + kind)
+			for k := 0; k < 3; k++ {
+				probe(fmt.Sprintf("%s_probe%d", label, k))
+			}
+		}
+	})
+}
